@@ -29,14 +29,12 @@ def gen_history(rng, stats, names=True, max_adds=8):
     ops = []
     asts = []
     n_add = rng.randint(1, max_adds)
-    n_q = rng.randint(4, 12)
-    plan = ['A'] * n_add + ['Q'] * n_q
-    # adds first for the most part, a few lookups in between
-    head = plan[:n_add]
-    tail = plan[n_add:]
-    for _ in range(rng.randint(0, 2)):
-        if tail:
-            head.insert(rng.randint(1, len(head)), tail.pop())
+    # lookups after (almost) every registration, so that every intermediate tree is probed
+    head, tail = [], ['Q'] * rng.randint(2, 5)
+    for _ in range(n_add):
+        head.append('A')
+        if rng.random() < .7:
+            head += ['Q'] * rng.randint(1, 3)
     from ombott.router.radirouter import RadiRouter
     shadow = RadiRouter()          # only to know which rules are accepted (paths are derived from those)
     live = []
@@ -80,26 +78,34 @@ class C01(Check):
     design_ref = '6/C01'
     anchors = ['ombott/router/radidict.py', 'ombott/router/radirouter.py', 'ombott/router/filter_factory.py',
                'ombott/router/parser.py', 'ombott/router/sym_stream.py', 'ombott/ombott.py']
-    level_text = ('Lean theorems over the model of RadiDict (_match/_set/_split/_make_route/get), Route.parse_rule '
-                  'and RadiRouter.add/resolve: lookup in every well-formed tree equals the plain rule-by-rule '
-                  'matcher with literal-before-wildcard priority, insertion keeps the tree well formed and adds '
-                  'exactly the rule, kwargs are the rule\'s own names bound to filter results; model tied to the '
-                  'code by differential runs of whole registration/lookup histories.')
-    level_note_extra = 'regex filters are a parameter (real handler results shipped per lookup); rex selectors by correspondence only'
-    rule = ('histories of 1-8 RadiRouter.add calls (rule ASTs in every syntax flavour sharing/splitting prefixes, all '
-            'filter kinds, malformed rules, several methods and names per pattern) interleaved with lookups through '
-            'RadiRouter.resolve, RadiDict.get(allow_partial) and Ombott.__call__ on paths derived from the rules and '
-            'mutated (empty segments, CR, non-ASCII, extra text); non-trivial = some lookup hits a wildcard rule')
-    assumptions = ['re matching of the filter masks is taken from the running interpreter (handler results shipped to the model)',
-                   'rule text contains no CR (the router\'s own wildcard marker) and no repeated wildcard name',
-                   'rex selector semantics (two-pass lookup) is covered by correspondence, not by the rule-by-rule theorem',
-                   'str.upper on method names is a parameter of the model (ASCII in the correspondence run)']
+    level_text = ('Lean theorems over the model of Route.parse_rule, RadiDict (_match/_set/_split/_make_route/get) and '
+                  'RadiRouter.add/resolve: lookup in every well-formed tree equals the plain rule-by-rule matcher with '
+                  'literal-before-wildcard priority (get_eq_spec); insertion keeps the tree well formed and adds exactly '
+                  'the rule (insert_wf, insert_denote); after every history of add/remove_method the tree holds exactly '
+                  'the routes table and resolve = plain matcher over it (resolve_eq_rule_by_rule); kwargs are the names of '
+                  'the rule text the handler was registered with, bound to its own filters\' values '
+                  '(params_are_rule_names, filter_guard); every syntax flavour parses to the same abstract rule '
+                  '(parse_print). Model tied to the code by differential runs of whole registration/lookup histories.')
+    level_note_extra = ('regex filters are a parameter (real handler results shipped per lookup); filters answering '
+                        'with a rex selector are outside the rule-by-rule theorems (NoSel) and covered by correspondence only')
+    rule = ('histories of 1-8 RadiRouter.add calls (rule ASTs printed in every syntax flavour, sharing/splitting prefixes, '
+            'all filter kinds incl. rex selectors, malformed rules, several methods/names per pattern, names, overwrite) '
+            'with lookups after almost every registration through RadiRouter.resolve, RadiDict.get(allow_partial) and '
+            'Ombott.__call__ on paths derived from the accepted rules (per-regex samples) and mutated (empty segments, '
+            'CR, LF, non-ASCII, extra text, extra slashes); non-trivial = some lookup hits a wildcard rule. Thorough '
+            'search adds the exhaustive scope: every rule set of <= 3 rules of a 14-rule universe x every path of '
+            'length <= 5 over {a / 1 - CR}.')
+    assumptions = ['re matching of the filter masks is taken from the running interpreter (handler results and compile errors shipped to the model)',
+                   'rule text contains no CR (the router\'s own wildcard marker; rule_without_marker_ok) and no repeated wildcard name: outside, Python pairs filters and markers wrongly and the model does not follow',
+                   'filters answering with a rex selector (two-pass lookup) are covered by correspondence, not by the rule-by-rule theorems (hypothesis NoSel)',
+                   'str.upper on method names is a parameter of the model (ASCII in the correspondence run)',
+                   '\\w of re is taken from the interpreter (generated code point ranges)']
 
     def __init__(self):
         self.stats = {}
 
     def budget(self, tier, escalated):
-        n = 1200 if tier == "quick" else 60000
+        n = 900 if tier == "quick" else 40000
         return n * (3 if escalated and tier == 'quick' else 1)
 
     def nontrivial(self, sample):
@@ -158,6 +164,8 @@ class C01(Check):
             elif op[0] == 'D':
                 return bad
             elif op[0] in ('R', 'W', 'G'):
+                run.ops.append('N')          # keeps Runner positions equal to op positions
+                run.answers.append('skip')
                 if op[0] == 'R':
                     path, methods = op[1], op[2] or ['GET', 'ANY']
                 elif op[0] == 'G':
